@@ -250,6 +250,12 @@ def gen_values(rng: random.Random, n: int) -> List[Any]:
     # random magnitudes
     for _ in range(n // 5):
         vals.append(rng.random() * 10 ** rng.randrange(-4, 15))
+    # mixed numbers whose integer part is huge (exact integer arithmetic is required: float division rounds)
+    for _ in range(max(4, n // 200)):
+        d = rng.choice(ALLOWED)
+        k = rng.randrange(2 ** 49, 10 ** 15 - 1)
+        vals.append(Fraction(k * d + rng.choice([1, d - 1]), d))
+    vals += [Fraction(999999999999999 * 16 + 15, 16), Fraction(562949953421312 * 16 + 15, 16)]
     vals += [0.0, 0.5, 1.5, 2.5, 0.125, 0.0625, 0.0005, 0.00045, 0.012345, 99.95, 9.995, 0.9996, 999.5, 1e15, 1e-300,
              5e-324]
     vals = [v for v in vals if v >= 0 and v <= 10 ** 15]
@@ -263,6 +269,7 @@ def _shown_number(html_text: str) -> str:
     import html as H
     txt = re.sub(r"<ul.*?</ul>", "", html_text, flags=re.S)
     txt = H.unescape(re.sub(r"<[^>]*>", "", txt)).replace("\u2044", "/")
+    txt = txt.strip()          # t() re-indents bodies that hold the conversions list
     m = re.match(r"(?:\d+ )?\d+/\d+|\d+(?:\.\d+)?", txt)
     return m.group(0) if m else txt
 
@@ -353,4 +360,14 @@ def suites(tier: str, seed: int) -> List[Suite]:
             pass
     for fr in (Fraction(1, 3), Fraction(1, 6), Fraction(1, 800), Fraction(1, 8), Fraction(2, 3), Fraction(1, 7), Fraction(5, 12)):
         sh_p.cases.append(make_shown_case("prop", fr, [True, "% of the"]))
+    # numerically equal values of different types, same unit / spacing / preposition, one after the other in this
+    # process (a cache keyed by dataclass == would hand the first one's text to the second)
+    for a, b in ((0.5, Fraction(1, 2)), (Fraction(1, 4), 0.25), (1.5, Fraction(3, 2)), (Fraction(3, 1), 3), (2.0, 2), (Fraction(7, 8), 0.875)):
+        for u in ("tsp", None, "sprigs"):
+            ex = [u, " " if u else "", " of"]
+            sh_q.cases.append(make_shown_case("qty", a, ex))
+            sh_q.cases.append(make_shown_case("qty", b, ex))
+            sh_q.cases.append(make_shown_case("qty", a, ex))
+        sh_p.cases.append(make_shown_case("prop", a, [False, " of the"]))
+        sh_p.cases.append(make_shown_case("prop", b, [False, " of the"]))
     return [su, sp, sh_p, sh_q]
